@@ -8,6 +8,7 @@
 #include <bxdecay0/event.h>
 #include <bxdecay0/event_reader.h>
 #include <bxdecay0/particle.h>
+#include <bxdecay0/bb_utils.h>
 #include "pool.hpp"
 #include "sanhook.hpp"
 #include <algorithm>
@@ -112,6 +113,20 @@ static void round_trip(const std::string & dir, Result & R, bool thorough)
             e.add_particle(p);
             evs.push_back(e);
           }
+  // labels: every name the library publishes (the generators label their events with them) and synthetic labels of every
+  // length 1..40, each on a one-particle and on a zero-particle event
+  {
+    std::vector<std::string> labs;
+    for (auto & n : bxdecay0::background_isotopes()) labs.push_back(n);
+    for (auto & n : bxdecay0::dbd_isotopes()) labs.push_back(n);
+    for (int len = 1; len <= 40; len++) labs.push_back(std::string("Lb+-m_0123456789abcdefghijklmnopqrstuvwxyzABC").substr(0, len));
+    for (auto & l : labs)
+      for (int n = 0; n < 2; n++) {
+        event e = mk(n, 5, 0, 0.25);
+        e.set_generator(l);
+        evs.push_back(e);
+      }
+  }
   // 0, 2, 3 particle events: structured sweep
   for (int n : {0, 2, 3})
     for (int s = 0; s < NV * NV * NV; s += (thorough ? 1 : 7))
@@ -186,12 +201,16 @@ static void on_fatal(int sig)
 }
 
 // ---------------------------------------------------------------- part 2
+// shape 0: 1..3 particles; shape 1, 2: 0..3 particles ((k + shape - 1) % 4: with every split enumerated, a zero-particle record is
+// the first, an inner and the last record of a file, and the last one of the stream); labels grow up to 13 characters
+static int g_shape = 0;
 static event stream_event(int k)
 {
   event e;
-  e.set_generator("Ev" + std::to_string(k));
+  e.set_generator(g_shape == 0 ? "Ev" + std::to_string(k) : "Ev" + std::to_string(k) + std::string("+Ba137m-long").substr(0, 3 * ((k + g_shape) % 4) + 1));
   e.set_time(0.5 * k);
-  for (int j = 0; j <= k % 3; j++) {
+  int np = g_shape == 0 ? k % 3 + 1 : (k + g_shape - 1) % 4;
+  for (int j = 0; j < np; j++) {
     particle p;
     p.set_code(j % 2 ? bxdecay0::GAMMA : bxdecay0::ELECTRON);
     p.set_time(0.25 * j);
@@ -216,7 +235,7 @@ static void window_model(const std::string & dir, int nmax, Result & R)
       int id = 0;
       std::string stag;
       for (size_t f = 0; f < splits[si].size(); f++) {
-        std::string fn = dir + "/w_" + std::to_string(N) + "_" + std::to_string(si) + "_" + std::to_string(f) + ".d0t";
+        std::string fn = dir + "/w" + std::to_string(g_shape) + "_" + std::to_string(N) + "_" + std::to_string(si) + "_" + std::to_string(f) + ".d0t";
         std::ofstream out(fn);
         out.precision(15);
         for (int k = 0; k < splits[si][f]; k++) {
@@ -241,8 +260,8 @@ static void window_model(const std::string & dir, int nmax, Result & R)
           long npat = 1;
           for (int k = 0; k < nl; k++) npat *= 4;
           for (long pat = 0; pat < npat; pat++) {
-            std::string where = "N=" + std::to_string(N) + " files=" + stag + " start=" + std::to_string(start) + " max=" + std::to_string(max);
-            std::string key = "window:N" + std::to_string(N) + ":files" + stag + ":start" + std::to_string(start) + ":max" + std::to_string(max);
+            std::string where = (g_shape ? "records of 0..3 particles (shape " + std::to_string(g_shape) + "), " : std::string()) + "N=" + std::to_string(N) + " files=" + stag + " start=" + std::to_string(start) + " max=" + std::to_string(max);
+            std::string key = "window:" + std::string(g_shape ? "shape" + std::to_string(g_shape) + ":" : "") + "N" + std::to_string(N) + ":files" + stag + ":start" + std::to_string(start) + ":max" + std::to_string(max);
             R.runs++;
             snprintf(g_where, sizeof g_where, "%s call pattern %ld", where.c_str(), pat);
             try {
@@ -292,7 +311,7 @@ static void window_model(const std::string & dir, int nmax, Result & R)
                 outcomes.insert("l");
                 std::string d = ev_diff(stream_event(expected[k]), e);
                 if (!d.empty()) {
-                  R.V(key + ":wrong-event", where + " calls " + trace + ": load #" + std::to_string(k) + " delivers '" + e.get_generator() + "', expected 'Ev" + std::to_string(expected[k]) + "' (" + d + ")");
+                  R.V(key + ":wrong-event", where + " calls " + trace + ": load #" + std::to_string(k) + " delivers '" + e.get_generator() + "', expected '" + stream_event(expected[k]).get_generator() + "' (" + d + ")");
                   bad = true;
                 }
                 delivered++;
@@ -347,7 +366,7 @@ int main(int argc, char ** argv)
   }
   Result R;
   round_trip(dir, R, thorough);
-  window_model(dir, nmax, R);
+  for (g_shape = 0; g_shape < 3; g_shape++) window_model(dir, g_shape == 0 ? nmax : std::min(nmax, 4), R);
   FILE * fo = fopen(out.c_str(), "w");
   fprintf(fo, "{\"states\":%ld,\"transitions\":%ld,\"runs\":%ld,\"roundtrip_events\":%ld,\"samples\":[", R.states, R.transitions, R.runs, R.roundtrip_events);
   for (size_t k = 0; k < R.samples.size(); k++) fprintf(fo, "%s%s", k ? "," : "", vx::jstr(R.samples[k]).c_str());
